@@ -123,6 +123,13 @@ class StdlibMixin:
             v = norm_int(args[0])
             if isinstance(v, (IntEnumMember, EnumMember)) and v.ecls is en:
                 return v
+            if isinstance(v, Sym) and len(en.enum_unique) <= 64 and all(isinstance(m, IntEnumMember) or isinstance(m.evalue, int) for m in en.enum_unique):
+                # a number known only symbolically: the member whose value it equals (one equality decision per member, each
+                # with its path fact), ValueError when it equals none
+                for m in en.enum_unique:
+                    if self.compare(ast.Eq(), v, int(m) if isinstance(m, IntEnumMember) else m.evalue, node, frame):
+                        return m
+                raise PyRaise(Instance(self.bclasses["ValueError"], ("%s is not a valid %s" % (self.name_of(v), cls.name),)), node, frame.where(node))
             if isinstance(v, (Sym, Unknown, SymAny)):
                 raise AnalysisError("unmodelled-stdlib", "%s(<dynamic value>) at %s" % (cls.name, frame.where(node)))
             for m in en.enum_unique:
